@@ -21,8 +21,12 @@ Satisfies(sys, a) ==
    /\ \A i \in 1..Len(sys.vars) : a[i] \in Dom(sys.vars[i])
    /\ \A k \in 1..Len(sys.cons) : a[sys.cons[k][1]] <= a[sys.cons[k][2]] + sys.cons[k][3]
 
-RECURSIVE SpaceSize(_,_)
-SpaceSize(vars, i) == IF i > Len(vars) THEN 1 ELSE Cardinality(Dom(vars[i])) * SpaceSize(vars, i + 1)
+\* size of the assignment space, saturating at cap (TLC integers are 32 bit)
+RECURSIVE SpaceSizeCapped(_,_,_,_)
+SpaceSizeCapped(vars, i, acc, cap) ==
+   IF i > Len(vars) \/ acc > cap \/ acc = 0 THEN acc
+   ELSE SpaceSizeCapped(vars, i + 1, acc * Cardinality(Dom(vars[i])), cap)
+SpaceSize(vars, i) == SpaceSizeCapped(vars, i, 1, 100000)
 
 \* ---- declarative definition (recursive enumeration with the constraints checked at the end)
 RECURSIVE ExistsFrom(_,_,_)
@@ -66,5 +70,16 @@ ParChoices(v) == IF v.par = 0 THEN {0, 1} ELSE IF v.par = 1 THEN {0} ELSE IF v.p
 RECURSIVE SatSplit(_,_,_)
 SatSplit(sys, i, p) == IF i > Len(sys.vars) THEN SatWithParity(sys, p)
                        ELSE \E b \in ParChoices(sys.vars[i]) : SatSplit(sys, i + 1, Append(p, b))
-SatAlg(sys) == SatSplit(sys, 1, <<>>)
+\* relaxation without parity (bounds first tightened to the nearest value of the demanded parity): necessary for satisfiability,
+\* and sufficient when no variable is parity-restricted
+TightLo(v) == IF v.par \in {1, 2} /\ ~ParOK(v.lo, v.par) THEN v.lo + 1 ELSE v.lo
+TightHi(v) == IF v.par \in {1, 2} /\ ~ParOK(v.hi, v.par) THEN v.hi - 1 ELSE v.hi
+Relaxed(sys) ==
+   LET n == Len(sys.vars) IN
+   /\ \A i \in 1..n : sys.vars[i].par # 3
+   /\ Fixpoint([i \in 1..n |-> TightLo(sys.vars[i])], [i \in 1..n |-> TightHi(sys.vars[i])], sys.cons, 5000)
+SatAlg(sys) ==
+   IF ~Relaxed(sys) THEN FALSE
+   ELSE IF \A i \in 1..Len(sys.vars) : sys.vars[i].par = 0 THEN TRUE
+   ELSE SatSplit(sys, 1, <<>>)
 =============================================================================
